@@ -197,10 +197,35 @@ def sym_args(specs, prefix='a'):
 
 
 class Prover:
-    """negated-goal queries with bookkeeping on a Check object"""
+    """negated-goal queries with bookkeeping on a Check object. In the thorough tier every CROSS_EVERY-th query is
+    also exported as SMT-LIB2 and decided by cvc5; a disagreement between the two solvers makes the check inconclusive."""
+    CROSS_EVERY = 25
 
     def __init__(self, chk, timeout_ms=60000):
         self.chk = chk; self.timeout_ms = timeout_ms
+        self.n = 0
+        self.cross = chk.tier == 'thorough' or os.environ.get('VERIF_CROSSCHECK') == '1'
+
+    def crosscheck(self, s, verdict):
+        import subprocess, tempfile
+        text = '(set-logic ALL)\n' + s.to_smt2()
+        with tempfile.NamedTemporaryFile('w', suffix='.smt2', delete=False, dir=common.workdir(self.chk.prop)) as fh:
+            fh.write(text); path = fh.name
+        try:
+            p = subprocess.run(['cvc5', '--lang', 'smt2', '--tlimit', '60000', path], capture_output=True, text=True, timeout=90)
+            out = p.stdout.strip().splitlines()
+        except Exception as e:      # noqa
+            out = ['error ' + str(e)]
+        finally:
+            os.unlink(path)
+        cc = self.chk.cov.setdefault('cvc5_crosscheck', {'agree': 0, 'no_answer': 0, 'disagree': 0})
+        if any(l.startswith('(error') or l.startswith('error') for l in out) or not out or out[0] not in ('sat', 'unsat'):
+            cc['no_answer'] += 1
+        elif out[0] == verdict:
+            cc['agree'] += 1
+        else:
+            cc['disagree'] += 1
+            self.chk.inconclusive_note('z3 says %s but cvc5 says %s on the same query' % (verdict, out[0]))
 
     def prove(self, hyps, goal):
         """returns ('unsat', None) when hyps => goal is valid, ('sat', model) with a counterexample, or ('unknown', None)"""
@@ -211,6 +236,9 @@ class Prover:
         t0 = time.time()
         r = s.check()
         self.chk.solver_s += time.time() - t0
+        self.n += 1
+        if self.cross and self.n % self.CROSS_EVERY == 0 and r in (z3.sat, z3.unsat):
+            self.crosscheck(s, 'sat' if r == z3.sat else 'unsat')
         if r == z3.unsat:
             self.chk.queries['unsat'] += 1
             return 'unsat', None
@@ -243,3 +271,48 @@ def run_paths(chk, mod, fn_pretty, args, pre=(), st=None, **kw):
     if cut:
         raise Inconclusive('%s: %d path(s) cut at the unwinding/step bound' % (fn_pretty, len(cut)))
     return eng, paths
+
+
+def compile_obligations(chk, name, head_src, obs, key_extra=None):
+    """compiles head_src + every obligation's function; when the compiler rejects or crashes, bisects to the offending
+    functions, reports each as a violation (a well-typed-by-construction function that is not compiled) and continues
+    with the rest. returns (module, accepted obligations, source without main, refs source)"""
+    from . import replay as replaylib
+    prop = chk.prop
+
+    def attempt(os_, nm):
+        src = head_src + '\n'.join(o.src for o in os_) + '\n'
+        refs = 'refs :: () {\n' + '\n'.join('    r%d := %s;' % (i, o.name) for i, o in enumerate(os_)) + '\n}\n'
+        mod, out = compile_module(prop, nm, src + refs + 'main :: () { refs(); }\n')
+        return mod, out, src, refs
+    mod, out, src, refs = attempt(obs, name)
+    if mod is not None:
+        return mod, obs, src, refs
+    bad = []
+
+    def bisect(os_):
+        m, o, _, _ = attempt(os_, name + '_bisect')
+        if m is not None:
+            return
+        if len(os_) == 1:
+            bad.append((os_[0], o)); return
+        h = len(os_) // 2
+        bisect(os_[:h]); bisect(os_[h:])
+    bisect(obs)
+    if not bad:
+        raise Inconclusive('the %s template is rejected as a whole but every function compiles alone:\n%s' % (prop, out[-1200:]))
+    badset = {id(b) for b, _ in bad}
+    good = [o for o in obs if id(o) not in badset]
+    for o, oo in bad:
+        first = [l for l in oo.splitlines() if 'panicked' in l or l.startswith('error') or 'Error defining' in l or 'Compilation(' in l][:1]
+        key = dict(o.key, failure='compile')
+        if key_extra:
+            key.update(key_extra)
+        what = 'the well-typed function `%s` is not compiled: %s' % (o.src.split('\n')[-1][:200], first[0][:200] if first else 'compiler failed')
+        full = head_src + o.src + '\nmain :: () { p := %s; }\n' % o.name
+        path = replaylib.make_compile_replay(prop, 'compile_' + o.name, full, oo, what, key)
+        chk.report(key, what, path)
+    mod, out, src, refs = attempt(good, name)
+    if mod is None:
+        raise Inconclusive('the %s template is still rejected after removing the failing functions:\n%s' % (prop, out[-1200:]))
+    return mod, good, src, refs
